@@ -1,7 +1,7 @@
 """Scale inputs shared by several oracles (tens to hundreds of nodes, hundreds of hyperedges)."""
 
 
-def big_hypergraph(rng, weighted=False, contiguous=False, connected=False, sizes=(1, 2, 2, 3, 4, 6), n=None, m=None):
+def big_hypergraph(rng, weighted=False, contiguous=False, connected=False, sizes=(1, 2, 2, 3, 4, 6), n=None, m=None, hub=None):
     import hypergraphx as hgx
 
     n = n or rng.randint(60, 120)
@@ -13,6 +13,15 @@ def big_hypergraph(rng, weighted=False, contiguous=False, connected=False, sizes
         rng.shuffle(perm)
         for i in range(0, n - 1):
             h.add_edge((perm[i], perm[i + 1]), weight=rng.choice([1, 2, 3]) if weighted else None)
+    if hub is None:
+        hub = rng.random() < 0.5
+    if hub:  # one node in 40-80 hyperedges of mixed sizes
+        hnode = nodes[rng.randrange(n)]
+        for _ in range(rng.randint(40, 80)):
+            k = min(n, max(2, rng.choice(list(sizes))))
+            e = tuple({hnode, *rng.sample(nodes, k - 1)})
+            if len(e) >= 2 and not h.check_edge(e):
+                h.add_edge(e, weight=rng.choice([0.5, 1, 2, 7]) if weighted else None)
     for _ in range(m or rng.randint(150, 400)):
         e = tuple(rng.sample(nodes, min(n, rng.choice(list(sizes)))))
         if not h.check_edge(e):
